@@ -33,6 +33,7 @@ def check(c: Check):
     clause_d(c)
     clause_e(c)
     clause_g(c)
+    clause_h(c)
     clause_f(c)
     from .common import sweep_records
     sweep_records(c, 'C14-rec', ['exactly_lib.type_val_prims.string_source', 'exactly_lib.impls.types.string_source'], floor=2)
@@ -511,3 +512,67 @@ def clause_g(c: Check):
     want = sum(1 for line in fm.src.splitlines() if '# EXPECT one-shot' in line)
     if len(got) != want:
         raise AnalysisError('C14-g: positive control failed: %d stores reported in the fixture, expected %d' % (len(got), want))
+
+
+# ---------------------------------------------------------------- h
+def clause_h(c: Check):
+    """TS "no write to a buffer that has been replaced": when the text held in memory outgrows the buffer,
+    `SpooledTextFile._rollover` copies it to a file on disk and makes that file the object `self._file` names. From
+    then on the old in-memory buffer is dead: a method that keeps it in a local (`file = self._file`) must not write
+    to it after a call that may have rolled over - the text written there is lost (the frozen text of a large
+    `filter` / `grep` output misses everything after the first 8 kB). Every writing method of the class is run
+    abstractly (helpers inlined, `self._path` None and not None, iterators handed to a consumer count as used up) and
+    on every path each write goes to the object that `self._file` names at that moment."""
+    from ..absint import Interp, Hooks, State, K, Sym, Obj, NONE
+    ix, fo = c.ix, c.fo
+    cls = ix.cls('exactly_lib.util.file_utils.spooled_file:SpooledTextFile')
+    rollover = ix.class_member(cls, '_rollover')
+    c.require(isinstance(rollover, FuncDef), 'C14-h: SpooledTextFile._rollover not found')
+    helpers = [m for m in cls.methods.values() if m.name.startswith('_') and not m.name.startswith('__')]
+    WRITES = ('write', 'writelines', 'truncate')
+
+    class H(Hooks):
+        loop_bound = 2
+        iterators_are_consumed = True
+
+        def inline(self, fd, st):
+            return fd in helpers
+
+    n_methods = 0
+    n_paths = 0
+    for mname in ('write', 'writelines', 'truncate'):
+        m = cls.methods.get(mname)
+        if m is None:
+            continue
+        n_methods += 1
+        for on_disk in (False, True):
+            it = Interp(ix, fo, H())
+            obj = it.new_obj(cls)
+            st = State()
+            buf = Sym('the-buffer-at-entry', nullness=False, truth=True)
+            st.heap[(obj.oid, '_file')] = buf
+            st.heap[(obj.oid, '_path')] = Sym('path', nullness=False, truth=True) if on_disk else NONE
+            st.heap[(obj.oid, '_max_size')] = Sym('max-size', truth=True)
+            for p in it.run_function(m, {}, st, recv=obj):
+                n_paths += 1
+                c.count()
+                current = buf
+                dead = []
+                for e in p.trace:
+                    if e.kind == 'setattr' and e.data[0] is obj and e.data[1] == '_file':
+                        dead.append(current)
+                        current = e.data[2]
+                    elif e.kind == 'call' and isinstance(e.node.func, ast.Attribute) and e.node.func.attr in WRITES \
+                            and e.func is not rollover:
+                        recv = e.data.get('recv')
+                        if recv is None:
+                            cv = e.data.get('callee_val')
+                            recv = cv.origin[1] if isinstance(cv, Sym) and cv.origin and cv.origin[0] == 'attr' else None
+                        if recv is not None and any(recv is d for d in dead):
+                            c.bad('C14-h', 'write-to-replaced-buffer/%s' % m.key,
+                                  '%s calls %s on the in-memory buffer after the roll-over to disk has replaced it '
+                                  '(self._file names the file on disk by then): what is written there is lost' % (
+                                      m.name, unparse(e.node)[:50]), '%s:%d' % (cls.module.relpath, e.node.lineno))
+            c.ok('C14-h', 'writes-go-to-the-current-object/%s/%s' % (mname, 'on-disk' if on_disk else 'in-memory'))
+    c.floor('C14-h', 'writing methods of SpooledTextFile analysed', n_methods, 3)
+    c.floor('C14-h', 'paths of the writing methods', n_paths, 8)
